@@ -18,7 +18,7 @@ REPO = "/repo"
 PY = "/venv/bin/python"
 
 # which checks are run for a seed of a given property (its own first)
-RELATED = {"C02": ["C02", "C04"], "C04": ["C04", "C02"], "C09": ["C09", "C02"], "C10": ["C10", "C08"], "C07": ["C07"], "C11": ["C11", "C10"], "C03": ["C03"],
+RELATED = {"C02": ["C02", "C04", "C11"], "C04": ["C04", "C02"], "C09": ["C09", "C02"], "C10": ["C10", "C08"], "C07": ["C07"], "C11": ["C11", "C10"], "C03": ["C03"],
            "C18": ["C18"], "C06": [], "C08": ["C08"]}
 
 
